@@ -67,8 +67,16 @@ def run(ctx, rep):
             sa = sorted(untag(" & ".join(sorted(fact_s(x) for x in c))) for c in cn.dnf_fn(a, truth=True))
             sb = sorted(untag(" & ".join(sorted(fact_s(x) for x in c))) for c in cn.dnf_fn(b, truth=True))
         else:
-            sa = sorted(untag(" & ".join(sorted(fact_s(x) for x in c)) + " => " + show(r, maxd=30)) for c, r in cn.decision_set(a))
-            sb = sorted(untag(" & ".join(sorted(fact_s(x) for x in c)) + " => " + show(r, maxd=30)) for c, r in cn.decision_set(b))
+            # value-returning: path summaries (helpers introduced by an edit inlined) — the same conditions lead to the
+            # same values
+            from mirq.paths import Paths, Unsupported, show_fact
+            try:
+                P_ = Paths(prog, inline=lambda g: prog.is_new(g))
+                sig = lambda f_: sorted(untag(" & ".join(sorted(show_fact(x) for x in sm.facts)) + " => " + show(sm.ret, maxd=30)) for sm in P_.of(f_))
+                sa, sb = sig(a), sig(b)
+            except Unsupported:
+                sa = sorted(untag(" & ".join(sorted(fact_s(x) for x in c)) + " => " + show(r, maxd=30)) for c, r in cn.decision_set(a))
+                sb = sorted(untag(" & ".join(sorted(fact_s(x) for x in c)) + " => " + show(r, maxd=30)) for c, r in cn.decision_set(b))
         sa, sb = " || ".join(sa), " || ".join(sb)
         rep.check(sa == sb, "R16.1", "duplicate:" + nm,
                   "Rectangle::%s has two public definitions (inherent in embedded-graphics-core and the trait impl in embedded-graphics); they must compute the same function, but their canonical decision sets differ:\n  core: %s\n  eg:   %s" % (nm, sa[:700], sb[:700]),
